@@ -67,6 +67,7 @@ const (
 	regCount
 	regStamp
 	regMarkClosed
+	regLiveChildren
 )
 
 var opNames = [...]string{
@@ -77,7 +78,7 @@ var opNames = [...]string{
 	OpSelect: "select", OpSpawn: "go", OpSleep: "sleep", OpPoolGet: "pool.Get", OpPoolPut: "pool.Put",
 	OpCondWait: "cond.Wait", OpCondSignal: "cond.Signal", OpCondBroadcast: "cond.Broadcast", opWake: "wake", OpDone: "done",
 	regFirst: "", regParked: "parked", regTimerNew: "timer.new", regTimerStop: "timer.stop", regTimerReset: "timer.reset",
-	regNow: "now", regDraw: "draw", regNote: "note", regCount: "count", regStamp: "stamp", regMarkClosed: "mark-closed",
+	regNow: "now", regDraw: "draw", regNote: "note", regCount: "count", regStamp: "stamp", regMarkClosed: "mark-closed", regLiveChildren: "live-children",
 }
 
 func (k OpKind) String() string {
@@ -187,6 +188,8 @@ type stask struct {
 	waits     []*waiter
 	until     int64
 	steps     int
+	parent    *stask
+	spawnStep int
 }
 
 type waiter struct {
@@ -252,12 +255,21 @@ type PanicInfo struct {
 	SpawnSite string `json:"spawn_site"`
 }
 
+// AliveTask describes a task that had not finished when the run ended.
+type AliveTask struct {
+	ID        int
+	SpawnSite string
+	Op        string
+	ParkedOn  string
+}
+
 // Outcome is what a run produced.
 type Outcome struct {
 	Steps          int
 	Truncated      bool
 	Stuck          bool
 	StuckTasks     []string
+	Alive          []AliveTask // tasks that had not finished when the run ended
 	Panics         []PanicInfo
 	Fatal          string // model-foreseen unrecoverable runtime error
 	Unsupported    string
@@ -610,6 +622,11 @@ func (s *Sim) Run() *Outcome {
 			}
 		}
 	}
+	for _, t := range s.tasks {
+		if t.state != stDone {
+			s.out.Alive = append(s.out.Alive, AliveTask{t.id, t.spawnSite, t.req.kind.String(), t.parkedOn})
+		}
+	}
 	// unwind whatever is left
 	for _, t := range s.tasks {
 		if t.state != stDone {
@@ -679,6 +696,8 @@ func (s *Sim) resumeTask(t *stask, r resume) {
 		}
 		if req.kind == OpSpawn {
 			c := s.newSTask(req.child, req.gate, req.str)
+			c.parent = t
+			c.spawnStep = s.step
 			s.trace("t%d spawns t%d (%s)", t.id, c.id, req.str)
 		}
 		if req.kind == OpSelect {
@@ -1063,6 +1082,14 @@ func (s *Sim) register(t *stask, r *request) resume {
 		return resume{}
 	case regStamp:
 		return resume{n: int64(s.step)}
+	case regLiveChildren:
+		n := 0
+		for _, c := range s.tasks {
+			if c.parent == t && c.state != stDone && int64(c.spawnStep) >= r.n {
+				n++
+			}
+		}
+		return resume{n: int64(n)}
 	case regMarkClosed:
 		if c := s.chanOf(r.obj, r.chlen, r.chcap); c != nil {
 			c.closed = true
@@ -1381,6 +1408,16 @@ func Draw(n int) int64 {
 		return 0
 	}
 	return t.call(request{kind: regDraw, n: int64(n)}).n
+}
+
+// LiveChildrenSince returns how many tasks spawned by the current task at or
+// after the given step stamp have not finished.
+func LiveChildrenSince(stamp int64) int {
+	t := current()
+	if t == nil || t.aborting {
+		return 0
+	}
+	return int(t.call(request{kind: regLiveChildren, n: stamp}).n)
 }
 
 // Stamp returns the current global step number.
